@@ -3,7 +3,7 @@
 // E (DESIGN 4/C11): K = 1..6 x G in {SO3d, SE2d, SE3d, Bundle<SO3d,Vector2d>, Vector3d} x cumulative basis matrix in
 //   {Bernstein cumulative, B-spline cumulative (both taken from smooth/polynomial/basis.hpp), one integer upper-
 //   triangular test matrix} x u in {0, 1e-9, 1/4, 1/2, 1-1e-9, 1} x every K-tuple of differences over a difference
-//   alphabet (8 entries for K <= 3, 4 entries for K >= 4 [quick tier: 3 entries for K >= 5]: zero, 1e-5-norm, O(1)
+//   alphabet (8 entries for K <= 3, 4 entries for K >= 4 [quick tier: 3 entries for K = 5, 2 for K = 6]: zero, 1e-5-norm, O(1)
 //   rotations and translations, all inside the injectivity radius) x every admissible combination of optional outputs. Two spaces per (G, K):
 //   "eval" (cspline_eval_vs / _gs: value, vel, acc, jer) and "jac" (cspline_eval_dg_dvs / _dgs: Jacobians of
 //   value, velocity, acceleration).
@@ -53,7 +53,7 @@ struct Tol
   static constexpr double jer   = 1.5e-8;   // observed 1.25e-10 (gs jer, SE3d K6)
   static constexpr double dg    = 6e-11;    // observed 5.2e-13 (dgs dg, SE3d K6)
   static constexpr double dvel  = 2.5e-11;  // observed 2.1e-13 (dgs dvel, SE3d K6)
-  static constexpr double dacc  = 2.5e-11;  // observed 2.0e-13 (dvs dacc, SE3d K4)
+  static constexpr double dacc  = 2.5e-11;  // observed 2.3e-13 (dvs dacc, SE3d K4, seed 2)
 };
 
 // ------------------------------------------------------------------ G <-> reference
@@ -447,17 +447,27 @@ struct Setup
           {
             const auto X = ref::mul(Ea, expmX<Q, N>(R::template hat<Q>(peq)));
             Q v[D];
+            L vl[D];
             const auto g = mulv<D>(Jinv[a], pe);
-            for (int i = 0; i < D; ++i) v[i] = dq[i] + Q(g(i, 0));
-            sc("reference log residual (perturbed, right, __float128) (1e-30)", newton_log<R, Q>(X, Jinv[a], v, 8), 1e-30L);
+            for (int i = 0; i < D; ++i) vl[i] = d[i] + g(i, 0);
+            Mat<L, N> Xl;
+            for (size_t i = 0; i < Xl.d.size(); ++i) Xl.d[i] = (L)X.d[i];
+            newton_log<R, L>(Xl, Jinv[a], vl, 4);  // cheap long double iterations first (contraction ~ eps per step)
+            for (int i = 0; i < D; ++i) v[i] = Q(vl[i]);
+            sc("reference log residual (perturbed, right, __float128) (1e-30)", newton_log<R, Q>(X, Jinv[a], v, 3), 1e-30L);
             for (int i = 0; i < D; ++i) dplus[a][size_t(c)][size_t(q)][size_t(i)] = (L)(v[i] - dq[i]);
           }
           {
             const auto X = ref::mul(expmX<Q, N>(R::template hat<Q>(neq)), Ea);
             Q v[D];
+            L vl[D];
             const auto g = mulv<D>(Jl, ne);
-            for (int i = 0; i < D; ++i) v[i] = dq[i] + Q(g(i, 0));
-            sc("reference log residual (perturbed, left, __float128) (1e-30)", newton_log<R, Q>(X, Jinv[a], v, 8), 1e-30L);
+            for (int i = 0; i < D; ++i) vl[i] = d[i] + g(i, 0);
+            Mat<L, N> Xl;
+            for (size_t i = 0; i < Xl.d.size(); ++i) Xl.d[i] = (L)X.d[i];
+            newton_log<R, L>(Xl, Jinv[a], vl, 4);
+            for (int i = 0; i < D; ++i) v[i] = Q(vl[i]);
+            sc("reference log residual (perturbed, left, __float128) (1e-30)", newton_log<R, Q>(X, Jinv[a], v, 3), 1e-30L);
             for (int i = 0; i < D; ++i) dminus[a][size_t(c)][size_t(q)][size_t(i)] = (L)(v[i] - dq[i]);
           }
         }
@@ -507,13 +517,13 @@ struct Inputs
   L logres = 0;
   double rot = 0, tm = 0;
 
-  Inputs(const Setup<G> & S, uint64_t tuple, uint64_t nA)
+  Inputs(const Setup<G> & S, uint64_t tuple, uint64_t nA, int aoff = 0)
   {
     mc::Radix r(tuple);
     vs.resize(size_t(K));
     gs.resize(size_t(K + 1));
     a[0] = 0;
-    for (int i = 1; i <= K; ++i) a[i] = int(r.next(nA));
+    for (int i = 1; i <= K; ++i) a[i] = aoff + int(r.next(nA));
     for (int i = 1; i <= K; ++i) {
       for (int c = 0; c < D; ++c) {
         v[i][c]               = S.alpha[size_t(a[i])][size_t(c)];
@@ -807,7 +817,7 @@ void selfcheck_closed_forms(const Setup<G> & S)
             ej = std::max(ej, std::fabs(o.dg[size_t(i * D + j)] - Jr(i, j)));
             zz = std::max({zz, std::fabs(o.dvel[size_t(i * D + j)]), std::fabs(o.dacc[size_t(i * D + j)])});
           }
-        sc("4-point difference of exp(B v) = B dr_exp_ref(B v) (1e-13)", std::max(relL(ej, Jr.maxabs()), zz), 1e-13L);
+        sc("4-point difference of exp(B v) = B dr_exp_ref(B v) (1e-12)", std::max(relL(ej, Jr.maxabs()), zz), 1e-12L);
       }
       // two exponentials exp(u a) exp(u b): vel = w + b, acc = -ad_b w, jer = ad_b^2 w, w = Ad_{exp(-u b)} a
       {
@@ -854,29 +864,27 @@ void selfcheck_closed_forms(const Setup<G> & S)
         L e = 0;
         for (int i = 0; i < D; ++i)
           for (int j = 0; j < 2 * D; ++j) e = std::max(e, std::fabs(o.dg[size_t(i * 2 * D + j)] - ((j == D + i) ? 1 : 0)));
-        sc("gs form with Btilde = 1: dg/dg_1 = I, dg/dg_0 = 0 (1e-13)", e, 1e-13L);
+        sc("gs form with Btilde = 1: dg/dg_1 = I, dg/dg_0 = 0 (1e-12)", e, 1e-12L);
       }
     }
 }
 
 /// per (G, K): stencil validation on a fixed menu, and step-size independence of the Jacobian differences
 template<int K, typename G>
-void selfchecks(const Setup<G> & S0, const Bases<K> & BS, uint64_t nA)
+void selfchecks(const Setup<G> & S0, const Setup<G> & S2, const Bases<K> & BS, uint64_t nA, int aoff)
 {
   using R         = Ref<G>;
   constexpr int D = R::Dof;
   uint64_t nt     = 1;
   for (int i = 0; i < K; ++i) nt *= nA;
-  // menu: three tuples spread over the space (the last one = all entries the largest O(1) difference of the small alphabet)
-  std::vector<uint64_t> menu = {nt - 1, (nt * 5) / 7, nt / 3};
-  Setup<G> S2                = S0;
-  S2.build_tables(2 * S0.eps);
+  // menu: two tuples of the space (the last one = all entries the largest O(1) difference of the small alphabet)
+  std::vector<uint64_t> menu = {nt - 1, (nt * 5) / 7};
   for (uint64_t t : menu) {
-    Inputs<K, G> in(S0, t, nA);
+    Inputs<K, G> in(S0, t, nA, aoff);
     for (int q = 0; q < 3; ++q)
-      for (double u : {0.0, 0.25, 1.0}) {
+      for (double u : {0.25, 1.0}) {
         selfcheck_stencil<R>(BS.b[q], K, in.v, Mat<L, R::Dim>::Id(), u);
-        if (q == 1) selfcheck_stencil<R>(BS.b[q], K, in.w, in.Mg[0], u);
+        if (q == 1 && u == 1.0) selfcheck_stencil<R>(BS.b[q], K, in.w, in.Mg[0], u);
         // Jacobian differences with step eps and 2 eps agree
         Curve<R> cv, cg;
         cv.build(BS.b[q], K, in.v, (L)u, Mat<L, R::Dim>::Id(), 2);
@@ -895,7 +903,7 @@ void selfchecks(const Setup<G> & S0, const Bases<K> & BS, uint64_t nA)
           return e / m;
         };
         const L e = std::max({cmp(a1.dg, a2.dg), cmp(a1.dvel, a2.dvel), cmp(a1.dacc, a2.dacc), cmp(b1.dg, b2.dg), cmp(b1.dvel, b2.dvel), cmp(b1.dacc, b2.dacc)});
-        sc("Jacobian differences: step eps vs 2 eps (1e-12)", e, 1e-12L);
+        sc("Jacobian differences: step eps vs 2 eps (1e-11)", e, 1e-11L);
       }
   }
   (void)D;
@@ -903,17 +911,19 @@ void selfchecks(const Setup<G> & S0, const Bases<K> & BS, uint64_t nA)
 
 // ------------------------------------------------------------------ the explored spaces
 template<int K, typename G>
-void run(const std::string & tn, const Setup<G> & S)
+void run(const std::string & tn, const Setup<G> & S, const Setup<G> & S2)
 {
   using R         = Ref<G>;
   constexpr int N = R::Dim, D = R::Dof;
   using Tangent   = Eigen::Matrix<double, D, 1>;
   const Bases<K> BS;
-  // tiers: the quick tier uses the 3-entry alphabet {zero, 1e-5, O(1)} for K >= 5 (run-time budget), thorough the 4-entry one
-  const uint64_t nA = K <= 3 ? 8 : ((K == 4 || mc::thorough()) ? 4 : 3);
+  // tiers (run-time budget): thorough = the designed space (4 entries for K >= 4); quick: K = 5 over the 3 entries
+  // {zero, 1e-5, O(1)}, K = 6 over the 2 entries {1e-5, O(1)} (first alphabet index = aoff)
+  const uint64_t nA = K <= 3 ? 8 : ((K == 4 || mc::thorough()) ? 4 : (K == 5 ? 3 : 2));
+  const int aoff    = (K == 6 && !mc::thorough()) ? 1 : 0;
   uint64_t nt       = 1;
   for (int i = 0; i < K; ++i) nt *= nA;
-  selfchecks<K, G>(S, BS, nA);
+  selfchecks<K, G>(S, S2, BS, nA, aoff);
   const auto Id = Mat<L, N>::Id();
 
   // ---------------- eval: cspline_eval_vs / cspline_eval_gs
@@ -924,7 +934,7 @@ void run(const std::string & tn, const Setup<G> & S)
     const double u       = US[iu];
     const Basis & B      = BS.b[ib];
     const auto Bm        = BS.map(ib);
-    const Inputs<K, G> in(S, tuple, nA);
+    const Inputs<K, G> in(S, tuple, nA, aoff);
     c.desc = [&] { return in.desc(B, u); };
     c.param("K", K);
     c.param("u", u);
@@ -979,7 +989,7 @@ void run(const std::string & tn, const Setup<G> & S)
     const double u       = US[iu];
     const Basis & B      = BS.b[ib];
     const auto Bm        = BS.map(ib);
-    const Inputs<K, G> in(S, tuple, nA);
+    const Inputs<K, G> in(S, tuple, nA, aoff);
     c.desc = [&] { return in.desc(B, u); };
     c.param("K", K);
     c.param("u", u);
@@ -1035,10 +1045,12 @@ void run_lo(const std::string & tn)
 {
   common_notes();
   const Setup<G> S;
+  Setup<G> S2 = S;  // same alphabet, perturbed-log tables for step 2 eps (step-size self-check)
+  S2.build_tables(2 * S.eps);
   selfcheck_closed_forms<G>(S);
-  run<1, G>(tn, S);
-  run<2, G>(tn, S);
-  run<3, G>(tn, S);
+  run<1, G>(tn, S, S2);
+  run<2, G>(tn, S, S2);
+  run<3, G>(tn, S, S2);
   sc_note(tn + " K1-3");
 }
 template<typename G>
@@ -1046,9 +1058,11 @@ void run_hi(const std::string & tn)
 {
   common_notes();
   const Setup<G> S;
-  run<4, G>(tn, S);
-  run<5, G>(tn, S);
-  run<6, G>(tn, S);
+  Setup<G> S2 = S;  // same alphabet, perturbed-log tables for step 2 eps (step-size self-check)
+  S2.build_tables(2 * S.eps);
+  run<4, G>(tn, S, S2);
+  run<5, G>(tn, S, S2);
+  run<6, G>(tn, S, S2);
   sc_note(tn + " K4-6");
 }
 
